@@ -209,14 +209,27 @@ impl Sys {
         self.signers.iter().map(|(n, _)| n.clone()).collect()
     }
 
+    /// ashift = 0: model units are the amounts. ashift > 0 (the i128-edge regime): the model number n * FINE + m
+    /// (|m| < FINE / 2) stands for n * 2^ashift + m, an embedding that preserves order and sums as long as the small
+    /// parts do not add up to FINE / 2; i128::MAX = 2^127 - 1 is 8 * FINE - 1.
     fn amount(&self, units: i64) -> i128 {
-        (units as i128) << self.ashift
+        if self.ashift == 0 {
+            return units as i128;
+        }
+        let n = (units + FINE / 2).div_euclid(FINE);
+        let m = (units + FINE / 2).rem_euclid(FINE) - FINE / 2;
+        ((n as i128) << self.ashift).wrapping_add(m as i128)
     }
 
     fn units(&self, v: i128) -> Value {
+        if self.ashift == 0 {
+            return if v.abs() < (1 << 30) { json!(v as i64) } else { json!(BAD) };
+        }
         let sc = 1i128 << self.ashift;
-        if v % sc == 0 && (v / sc).abs() < (1 << 30) {
-            json!((v / sc) as i64)
+        let n = (v >> self.ashift) + ((v >> (self.ashift - 1)) & 1);
+        let m = v.wrapping_sub(n.wrapping_mul(sc));
+        if m.abs() < (FINE / 2) as i128 {
+            json!(n as i64 * FINE + m as i64)
         } else {
             json!(BAD)
         }
@@ -707,6 +720,10 @@ fn drive_weighted(sys: &mut Sys, r: &mut StdRng, len: usize, t: &mut Trace) {
     }
 }
 
+/// see `Sys::amount`
+const FINE: i64 = 1000;
+const AMAX: i64 = 8 * FINE - 1;
+
 const BAD_CTX: [&str; 8] = ["fn", "short", "u32", "u128", "i64", "sym", "create", "ctor"];
 
 fn drive_spending(sys: &mut Sys, r: &mut StdRng, len: usize, t: &mut Trace) {
@@ -729,7 +746,7 @@ fn drive_spending(sys: &mut Sys, r: &mut StdRng, len: usize, t: &mut Trace) {
             "install" => {
                 let au = g.auth(0.85);
                 let mut o = g.op(kind, 0, &au);
-                let l = if big { *pick(g.r, &[0i64, 1, 3, 5, 7, 7]) } else { *pick(g.r, &[0i64, 1, 2, 5, 10, 10, 100, 1000]) };
+                let l = if big { *pick(g.r, &[0i64, 1, 3 * FINE + 2, 5 * FINE, 7 * FINE, AMAX - 10, AMAX, AMAX, AMAX]) } else { *pick(g.r, &[0i64, 1, 2, 5, 10, 10, 100, 1000]) };
                 o["amt"] = json!(l);
                 o["per"] = json!(*pick(g.r, &[0i64, 1, 1, 2, 2, 3, 5, 8, 20]));
                 o
@@ -745,7 +762,7 @@ fn drive_spending(sys: &mut Sys, r: &mut StdRng, len: usize, t: &mut Trace) {
                     4 => limit + 1,
                     _ => g.r.gen_range(1..=(2 * limit).max(2)),
                 };
-                o["amt"] = json!(x.clamp(0, if big { 7 } else { 1 << 20 }));
+                o["amt"] = json!(x.clamp(0, if big { AMAX } else { 1 << 20 }));
                 o
             }
             "uninstall" => {
@@ -772,9 +789,10 @@ fn drive_spending(sys: &mut Sys, r: &mut StdRng, len: usize, t: &mut Trace) {
                     3 => limit,
                     4 => limit + 1,
                     5 | 6 => 1,
+                    7 if big => *pick(g.r, &[10i64, 100, FINE, AMAX - 10, AMAX - 1, AMAX]),
                     _ => g.r.gen_range(0..=(limit / 3).max(1)),
                 };
-                o["amt"] = json!(x.clamp(0, if big { 7 } else { 1 << 20 }));
+                o["amt"] = json!(x.clamp(0, if big { AMAX } else { 1 << 20 }));
                 o["ctx"] = json!(if g.r.gen_bool(0.1) { *pick(g.r, &BAD_CTX) } else { "transfer" });
                 let k = if g.r.gen_bool(0.06) { 0 } else { g.r.gen_range(1..=g.all.len()) };
                 let all = g.all.clone();
